@@ -33,8 +33,8 @@ EXPLANATION = (
     "through the sticky edge stores the remembered value (except the reset when the observed object is absent from "
     "the state) and it returns that value, every path through the not-sticky edge ends with the remembered value set "
     "to the constant 0, and a qualifying event updates the value without consulting the flag; a component that interprets the action's "
-    "R10.5 the numeric settings this property depends on are never tested by truthiness (`x or default`, `if x:`), because 0 is a legal value for them. "
-    "response does so only behind the test that the action was its own request. NOT decided: the "
+    "response does so only behind the test that the action was its own request. R10.5 the numeric settings this property depends on are never tested by truthiness (`x or default`, `if x:`) - 0 is a legal value for them. "
+    "NOT decided: the "
     "arithmetic inside individual components, floating point rounding of the sum, exhaustive enumeration of sharing "
     "graphs (the DFS functions are decided structurally, not by running them), behaviour when a shared-reward names an "
     "agent that does not exist."
